@@ -102,10 +102,19 @@ func scribble(buf []byte, pattern string, r *core.Rand) {
 }
 
 // copyDocumented: accessors documented to return copies, by method name per type.
+// (the serialisers of the structures the statement lists are included: what Bytes() hands out is a
+// serialisation, a buffer of the caller's - on the unchanged tree every one of them is)
 var copyDocumented = map[string][]string{
 	"Signature":         {"Bytes", "Serialize"},
-	"OfflineSignature":  {"TransientPublicKey", "Signature"},
-	"EncryptedLeaseSet": {"BlindedPublicKey", "EncryptedInnerData"},
+	"OfflineSignature":  {"TransientPublicKey", "Signature", "Bytes"},
+	"EncryptedLeaseSet": {"BlindedPublicKey", "EncryptedInnerData", "Bytes"},
+	"Lease":             {"Bytes"},
+	"Lease2":            {"Bytes"},
+	"LeaseSet":          {"Bytes"},
+	"Certificate":       {"Bytes"},
+	"KeysAndCert":       {"Bytes"},
+	"Destination":       {"Bytes"},
+	"RouterIdentity":    {"Bytes"},
 }
 
 func runC08(c *core.Ctx) {
